@@ -4,9 +4,11 @@ set -e
 cd "$(dirname "$0")/.."
 export GOFLAGS=-mod=mod GOPROXY=off GOSUMDB=off GOTOOLCHAIN=local
 mkdir -p evidence replays .build
-(cd lean && lake build SifVerif sifdriver)
-if [ -d extract ]; then (cd extract && go build -o ../.build/extract . ) ; fi
 REPO="${REPO:-/repo}"
+# source facts are regenerated from $REPO (never committed); the Lean build needs them
+mkdir -p lean/SifVerif/Generated
+(cd extract && go run . -repo "$REPO" -out ../lean/SifVerif/Generated/Facts.lean)
+(cd lean && lake build SifVerif sifdriver)
 sed "s#__REPO__#$REPO#" harness/go.mod.tmpl > .build/go.mod && cp "$REPO/go.sum" .build/go.sum
 (cd harness && go build -modfile ../.build/go.mod -o ../.build/sifharness-setup . )
 echo setup ok
